@@ -209,7 +209,25 @@ def rand_content(rng, ctx, depth, params, n=None, allow_delim=True, allow_def=Tr
 
 def rand_body(rng, ctx, i, sig, depth):
     total = sig['np'] + (1 if sig['opt'] else 0)
-    return rand_content(rng, ctx, depth, total, n=rng.randint(1, 4), allow_delim=True, allow_def=False, callable_ids=list(range(i)))
+    body = rand_content(rng, ctx, depth, total, n=rng.randint(1, 4), allow_delim=True, allow_def=False, callable_ids=list(range(i)))
+    if rng.random() < 0.25 and sig['how']['kind'] == 'def' or rng.random() < 0.1:
+        # a definition nested in the body (its parameters are written ##k) followed by a use of it; the inner name is private
+        inner = ctx['next_inner']
+        ctx['next_inner'] += 1
+        inp = rng.randint(0, 2)
+        ibody = []
+        for _ in range(rng.randint(1, 3)):
+            r = rng.random()
+            if inp and r < 0.45:
+                ibody.append(['param2', rng.randint(1, inp)])
+            elif total and r < 0.6:
+                ibody.append(['param', rng.randint(1, total)])
+            else:
+                ibody += words(rng, ctx, 1)
+        body.append(['def', False, inner, inp, None, ibody, {'kind': 'def'}])
+        for _ in range(rng.randint(1, 2)):
+            body.append(['call', inner, None, [words(rng, ctx, rng.randint(0, 2)) for _ in range(inp)], {'kind': 'def'}])
+    return body
 
 
 def def_node(rng, ctx, i, sig, glob, depth):
@@ -254,6 +272,11 @@ def rand_main(rng, ctx, depth, in_group):
                     c = rand_call(rng, ctx, 2, 0, new, True)
                     if c:
                         out.append(c)
+        elif r < 0.62 and ctx['feeders']:
+            tgt, fid = rng.choice(ctx['feeders'])
+            # only while the target still has its top-level signature and the feeder its top-level body (both are never redefined: ids >= 40
+            # are not in the redefinition candidates; the target may be locally redefined with the same signature, which is fine)
+            out.append(['expandafter', tgt, fid])
         else:
             out += rand_content(rng, ctx, min(depth + 1, 3), 0, n=1)
     return out
@@ -261,13 +284,26 @@ def rand_main(rng, ctx, depth, in_group):
 
 def rand_prog(rng, depth):
     n = rng.randint(1, 5)
-    ctx = dict(n=n, sigs={}, w=0, callable=[], alias={}, next_alias=20, defined=set(), local_depth={})
+    ctx = dict(n=n, sigs={}, w=0, callable=[], alias={}, next_alias=20, defined=set(), local_depth={}, next_inner=60, feeders=[])
     prog = []
     for i in range(n):
         ctx['sigs'][i] = rand_sig(rng, i)
         prog.append(def_node(rng, ctx, i, ctx['sigs'][i], False, 2))
         ctx['defined'].add(i)
         ctx['callable'].append(i)
+    # feeder macros for \expandafter: a parameterless \def whose body starts with one brace group per parameter of its target
+    for j in range(rng.choice([0, 1, 1, 2])):
+        targets = [i for i in range(n) if not ctx['sigs'][i]['opt'] and not any(ctx['sigs'][i]['how'].get('delims') or [])
+                   and 'csname' not in ctx['sigs'][i]['how']]
+        if not targets:
+            break
+        tgt = rng.choice(targets)
+        fid = 40 + j
+        body = [['group', words(rng, ctx, rng.randint(0, 2)), 'brace'] for _ in range(ctx['sigs'][tgt]['np'])] + words(rng, ctx, rng.randint(0, 2))
+        ctx['sigs'][fid] = dict(np=0, opt=False, how={'kind': 'def'})
+        prog.append(['def', False, fid, 0, None, body, {'kind': rng.choice(['def', 'def', 'newcommand'])}])
+        ctx['callable'].append(fid)
+        ctx['feeders'].append((tgt, fid))
     prog += rand_main(rng, ctx, depth, False)
     return prog
 
